@@ -1084,4 +1084,9 @@ prop(id='C01',
      design_ref='5 (C01)')
 
 HOOK_COMMITS = ['d4e24c9b']
+# properties whose thorough tier (10x cases, release profile where listed, coqchk -o) was run to the end on the
+# unchanged tree in this development; the others register the quick command only (an unvalidated
+# long command is not offered as a check)
+THOROUGH_OK = {'C01', 'C02', 'C03', 'C04', 'C05', 'C06', 'C07', 'C08', 'C09', 'C10', 'C13'}
+
 NOT_CLAIMED = {}
